@@ -198,6 +198,7 @@ theorem C13_ignore_persists (g : Graph) (T : Name) (h : List COp) (s : St) (hs :
         · exact resetList_keeps_ign _ s T hs
         all_goals exact hs
       | run order always plan => simp only [stepC]; exact runAll_keeps_ign true always g plan order _ T hs
+      | firstPass ts => simp only [stepC]; exact firstPass_keeps_ign ts s T hs
     · intro o ho; exact hk o (List.mem_cons_of_mem _ ho)
 
 def gOne : Graph := { names := [0], taskDep := fun _ => [], setup := fun _ => [], subOf := fun _ => none }
